@@ -268,3 +268,5 @@ def run(ctx):
                        "GCXS members of rank 2-3 (every compressed_axes, empty members, zero extents, negative axis): model vs implementation on (data, indices, "
                        "indptr, shape, compressed_axes, fill), and the indptr splice on the members' (indptr, nnz) pairs; leg C: the same functions "
                        "plus take, concat, axis=None, format mixes COO/GCXS(any compressed axes), narrow index dtypes, mixed fills vs NumPy; distinct by hash")
+    import extra_ops  # operation tables closing the measured coverage gaps (tools/coverage_audit.py; coverage/API_COVERAGE.md)
+    extra_ops.run(ctx, PID)
